@@ -364,6 +364,45 @@ def oracle_side_stats(ent, d):
     return None
 
 
+def oracle_stats_cover_trimming(ent):
+    """a lower bound that holds in every paired run, --revcomp included: when nothing but the adapters shortens the reads and the action
+    is trim, every written mate that is shorter than the input mate it stems from was shortened by at least one applied match of an
+    adapter of that side -- so the matches reported for the adapters of R1 (of R2) are at least as many as the shortened first
+    (second) mates"""
+    pcfg, pairs, res = ent["cfg"], ent["pairs"], ent["impl"]
+    b = pcfg.base
+    if b.action != "trim" or res.get("report") is None or res.get("exit") != 0:
+        return None
+    if b.cuts or pcfg.cuts2 or b.qcut not in (None, "0") or pcfg.qcut2 not in (None, "0") or b.nextseq is not None or b.length is not None \
+            or pcfg.length2 is not None or b.trim_n or b.poly_a:
+        return None
+    inp = {i: pr for i, pr in enumerate(pairs)}
+    short = [0, 0]
+    for key, prs in res["files"].items():
+        if str(key).startswith("_") or not isinstance(prs, list):
+            continue
+        for pr in prs:
+            if not (isinstance(pr, tuple) and len(pr) == 2 and isinstance(pr[0], tuple)):
+                continue
+            i = read_index(pr[0][0])
+            if i is None or i not in inp:
+                return None
+            srcs = [inp[i][0][1], inp[i][1][1]]
+            for side in (0, 1):
+                sq = pr[side][1]
+                if not any(sq.upper() in (x.upper(), revcomp(x).upper()) for x in srcs):
+                    short[side] += 1
+    for side in (0, 1):
+        ads = res["report"].get("adapters_read%d" % (side + 1)) or []
+        tot = sum(a.get("total_matches") or 0 for a in ads)
+        w = res["report"]["read_counts"].get("read%d_with_adapter" % (side + 1)) or 0
+        if w < short[side]:
+            return "report: %d second/first reads with adapter (R%d), but %d written mates of that side were shortened by the adapters" % (w, side + 1, short[side])
+        if tot < short[side]:
+            return "adapter statistics of R%d report %d matches in all, but %d written mates of that side were shortened by the adapters" % (side + 1, tot, short[side])
+    return None
+
+
 def reduced_pcfg(pcfg, upto):
     """the paired option set cut down to the read-modifying steps up to [upto] ('cut', 'qual', 'adapters', 'polya'), with every
     filter, redirect, renaming and later step removed: what reaches / leaves one step can then be read off the outputs"""
@@ -553,7 +592,7 @@ PAIRED_ORACLES = {
     "C11": lambda ent, d: oracle_decision(ent, d),
     "C15": lambda ent, d: oracle_sync(ent) or oracle_pdemux(ent, d) or oracle_decision(ent, d),
     "C16": lambda ent, d: oracle_paired_revcomp(ent),
-    "C20": lambda ent, d: oracle_side_stats(ent, d),
+    "C20": lambda ent, d: oracle_side_stats(ent, d) or oracle_stats_cover_trimming(ent),
 }
 PAIRED_FOCUS = {
     "C03": ("action", "adapters", "revcomp", "cut", "qual", "length", "times", "pairactions:0.2"),
@@ -564,7 +603,7 @@ PAIRED_FOCUS = {
     "C11": ("filters", "pairfilter", "adapters", "onesided:0.3"),
     "C15": ("demux", "combinatorial", "adapters", "times"),
     "C16": ("revcomp", "adapters", "times", "action"),
-    "C20": ("adapters", "adapters2:0.7", "times", "action", "onesided:0.3"),
+    "C20": ("adapters", "adapters2:0.7", "times", "onesided:0.3", "revcomp"),
 }
 
 
@@ -574,6 +613,10 @@ def adjust(pid, rng, pcfg):
         b.revcomp = True
         if rng.random() < 0.4:
             b.error_rate, b.overlap = rng.choice([0.5, 0.7]), rng.choice([3, 5])
+    if pid == "C20" and (b.adapters or pcfg.adapters2) and not pcfg.pair_adapters and rng.random() < 0.35:
+        # nothing but the adapters shortens the reads, action trim, --revcomp: every shortened mate then stands for an applied match
+        b.revcomp, b.action = True, "trim"
+        b.cuts, pcfg.cuts2, b.qcut, pcfg.qcut2, b.nextseq, b.length, pcfg.length2, b.trim_n, b.poly_a = (), (), None, None, None, None, None, False, False
     if pid == "C15" and b.adapters and not b.discard_trimmed and not pcfg.combinatorial:
         b.demux = True
         b.demux_twice = rng.random() < 0.3
